@@ -810,6 +810,13 @@ def make_pipeline_from_args(  # noqa: C901
             "With --pair-adapters, you can only use {name} in your output file name template, "
             "not {name1} and {name2} (no combinatorial demultiplexing)."
         )
+    if demultiplex_mode and "unknown" in (
+        adapter_names + (adapter_names2 if demultiplex_mode == "combinatorial" else [])
+    ):
+        raise CommandLineError(
+            "The adapter name 'unknown' cannot be used when demultiplexing because "
+            "the reads in which no adapter was found are written to the file of that name."
+        )
     if demultiplex_mode == "normal":
         if paired:
             step = PairedDemultiplexer(
